@@ -19,6 +19,9 @@ import "time"
 // tlsHandshakeTimeout is the time a client gets to complete its TLS handshake.
 const tlsHandshakeTimeout = 10 * time.Second
 
+// acceptRetryInterval is the pause before Accept is tried again after it failed.
+const acceptRetryInterval = 50 * time.Millisecond
+
 const (
 	// PackageName is the package name.
 	PackageName = "go-redis"
